@@ -84,14 +84,15 @@ def all_props():
         return [c["property_id"] for c in json.load(f)["checks"]]
 
 
-def cmd_import(wt, prop):
+def cmd_import(wt, prop, rename=None):
+    rename = rename or {}
     for letter in ("A", "B"):
         patch = os.path.join(wt, "demo", "patch_%s.diff" % letter)
         if not os.path.exists(patch):
             print("%s-%s: no patch" % (prop, letter))
             continue
         ok, notes = confirm(wt, letter)
-        name = "%s-%s" % (prop, letter)
+        name = "%s-%s" % (prop, rename.get(letter, letter))
         if not ok:
             print("%s: NOT CONFIRMED %r" % (name, notes))
             continue
@@ -133,7 +134,8 @@ def cmd_run(names, tier, all_checks):
 if __name__ == "__main__":
     a = sys.argv[1:]
     if a and a[0] == "import":
-        cmd_import(a[1], a[2])
+        # optional 4th argument "CD": store patch_A/patch_B of a later round as <PROP>-C / <PROP>-D
+        cmd_import(a[1], a[2], dict(zip("AB", a[3])) if len(a) > 3 else None)
     elif a and a[0] == "run":
         tier = "quick"
         allc = False
